@@ -46,6 +46,7 @@ DEFECTS = {
     "bmpexcl": ("Transparent", "exclusion silently skipped when an excluded commit has no bitmap"),
     "providers": ("Transparent", "graph-traversal provider and bitmap provider implement different meanings"),
     "delpacked": ("RefsTransparent", "deleting a ref leaves its packed-refs entry behind"),
+    "shallow": ("Transparent", "the commit-graph is asked for parents before the shallow boundary is tested"),
 }
 
 _G = {}
@@ -153,7 +154,7 @@ def report(ctx, res, path, model, extra=None):
         ctx.drift_event(f"after {path}: {s}" + (("\n" + res["tb"]) if res.get("tb") else ""))
 
 
-def replay_graph(ctx, cfgname, budget, label):
+def replay_graph(ctx, cfgname, budget, label, every_edge=False):
     d = ctx.tmpdir("g")
     gen = os.path.join(d, "gen.cfg")
     with open(os.path.join(tlc.SPECS, cfgname)) as f:
@@ -174,7 +175,7 @@ def replay_graph(ctx, cfgname, budget, label):
     top = max(level.values())
     # everything up to the last-but-one level is executed (so every state with successors is materialised and
     # every transition between them taken); transitions into the last level are sampled up to the budget
-    sel = {e for e in all_edges if level[e[0]] < top - 1} | {e for e in tree if level[e[2]] < top}
+    sel = set(all_edges) if every_edge else {e for e in all_edges if level[e[0]] < top - 1} | {e for e in tree if level[e[2]] < top}
     rest = sorted(set(all_edges) - sel)
     ctx.rng.shuffle(rest)
     if not git_available():
@@ -410,8 +411,11 @@ def run(ctx):
                          coverage=not ctx.quick)
     futs = defect_runs(ctx, pool)
     t0 = os.times()
-    budget = int(os.environ.get("C14_BUDGET", ctx.pick(5000, 40000)))       # (C14_BUDGET: debugging aid)
+    budget = int(os.environ.get("C14_BUDGET", ctx.pick(4000, 36000)))       # (C14_BUDGET: debugging aid)
     records = replay_graph(ctx, ctx.pick("Accel_mc.cfg", "Accel_mc5.cfg"), budget, ctx.pick("depth 4", "depth 5"))
+    # ref storage alone, deeper (no objects move, so it is cheap): every transition executed
+    records += replay_graph(ctx, ctx.pick("Accel_refs.cfg", "Accel_refs3.cfg"), 10 ** 9,
+                            ctx.pick("refs only, 2 commits, depth 7", "refs only, 3 commits, depth 6"), every_edge=True)
     defect_replays(ctx, futs)
     wtraces, wmeta = walks(ctx, ctx.pick(40, 600), ctx.pick(12, 16), ctx.pick(5, 6))
     t1 = os.times()
